@@ -12,6 +12,8 @@ for n in range(16):
     TARGETS["queues.R%d" % n] = dict(src="scenarios/queues.cpp", defs=["-DXV_RECL=%d" % n])
 TARGETS["queues.norecl"] = dict(src="scenarios/queues.cpp", defs=["-DXV_NORECL"])
 for n in range(16):
+    TARGETS["harris.R%d" % n] = dict(src="scenarios/harris.cpp", defs=["-DXV_RECL=%d" % n])
+for n in range(16):
     TARGETS["reclaim.R%d" % n] = dict(src="scenarios/reclaim.cpp", defs=["-DXV_RECL=%d" % n])
 
 TARGETS["deque"] = dict(src="scenarios/deque.cpp", defs=[])
@@ -53,6 +55,13 @@ def attribute(scenario, config, kind, primary, weak):
             props = [lin, "C07"]
     elif fam in SIMPLE_FAMILIES:
         props = ["C16"] if kind in ("solo-bound", "solo-blocked") else list(SIMPLE_FAMILIES[fam])
+    elif fam == "harris":
+        if kind in ("solo-bound", "solo-blocked"):
+            props = ["C16"]
+        elif primary and kind not in GENERIC_KINDS and not race:
+            props = [primary]
+        else:  # crash / heap error / race: breaks set semantics and iterator validity alike
+            props = ["C08", "C09"] if config.startswith("trav_") else ["C08"]
     elif fam == "reclaim":
         if kind in ("solo-bound", "solo-blocked"):
             props = ["C16"]
@@ -311,11 +320,56 @@ PLANS["C13"] = plan_simple(
     "readers, <= 5 operations each, under one seeded schedule (every seq_cst operation, mutex operation and yield is a scheduling point); functor "
     "overlap monitor per instance address, per-instance update logs, WGL search against an atomic register", {"reads_between_switch_and_second_apply": 500}, chunks=16)
 
+def plan_harris(prop, pattern, execs_quick, execs_thorough, rule, gate_counters):
+    def targets(tier):
+        recls = R8 if tier == "quick" else R8 + [8, 9, 11, 12]
+        return [("harris.R%d" % r, "xrt-prod") for r in recls]
+
+    def jobs(tier, seed, list_configs):
+        recls = R8 if tier == "quick" else R8 + [8, 9, 11, 12]
+        execs = execs_quick if tier == "quick" else execs_thorough
+        return generic_jobs(list_configs, "harris", recls, pattern, "xrt-prod", "sc", execs, seed, per_job=2 if tier == "quick" else 1)
+
+    def gates(tier, agg, counters, per_config, distinct):
+        msgs = []
+        if agg["execs"] == 0:
+            msgs.append("no executions")
+        if distinct < 100:
+            msgs.append("only %d distinct non-trivial histories" % distinct)
+        for c, minimum in gate_counters.items():
+            if counters.get(c, 0) < minimum:
+                msgs.append("counter %s = %d < %d" % (c, counters.get(c, 0), minimum))
+        return msgs
+
+    return dict(targets=targets, jobs=jobs, gates=gates, rule=rule, assumptions=ASSUME_XRT, level="exploration")
+
+
+PLANS["C08"] = plan_harris(
+    "C08", r"^lin_", 1200, 15000,
+    "each evaluation = 2-4 threads x <= 6 operations (emplace / emplace_or_get / get_or_emplace(_lazy) / operator[] / erase(key) / find+erase(iterator) / "
+    "find / contains) over a universe of 2-4 keys on harris_michael_list_based_set (less / greater) and harris_michael_hash_map (1/2/4 buckets, identity / "
+    "constant / order-reversing / two-valued hash, memoize_hash on/off) with unique values per insertion, plus a final iteration; judged per key "
+    "(P-compositionality) by a WGL search against a sequential set/map", {"wgl_nodes": 1000})
+PLANS["C09"] = plan_harris(
+    "C09", r"^trav_", 1200, 15000,
+    "each evaluation = one traversing thread (1-2 full traversals with pre-/post-increment, iterator copies, optional erase(iterator) at position 0-2) and "
+    "1-3 updating threads over 2-4 keys; traversal monitor with one-sided interval facts: no yield of an element that is definitely absent, no element "
+    "yielded twice without re-insertion, every element definitely present during the whole traversal is yielded; heap shadow for reclaimed nodes; the "
+    "updates (incl. the traverser's erase) are checked per key for linearizability as in C08", {"traversals": 1000, "traversal_yields": 1000})
+
 # ---------------------------------------------------------------------------------------------------- manifest metadata
 NOT_YET = {}
 _LEVEL_NOTE = ("Trusted base: the xrt runtime (scheduler, vector clocks, heap shadow) and the sequential models in monitors/; gcc 12 -O1 "
                "TSan-instrumented build of the header-only library from /repo's working tree; executions explored = seeded sample, not all schedules.")
 META = {
+    "C08": dict(design_ref="DESIGN.md 5/C08", technique="runtime monitoring: recorded histories under a controlled scheduler + per-key WGL linearizability oracle (set / map with per-insertion value ids)",
+                level_text="Conflict-maximising key universes (2-4 keys), colliding and order-reversing hashes, memoize on/off, 8 reclaimers (12 in the thorough tier); "
+                           "every per-key sub-history is decided exactly.",
+                level_note=_LEVEL_NOTE + " The long single-threaded differential runs against std::set / std::map of the design are not built."),
+    "C09": dict(design_ref="DESIGN.md 5/C09", technique="runtime monitoring: traversal monitor (yield log vs recorded update history, one-sided interval reasoning) + heap shadow oracle",
+                level_text="Traversals overlapping inserts and erases, including erase of the current element under the iterator, iterator copies and the iterator's own "
+                           "erase; only definite facts are used, so a verdict never depends on timing luck.",
+                level_note=_LEVEL_NOTE),
     "C13": dict(design_ref="DESIGN.md 5/C13", technique="runtime monitoring: functor overlap monitor on instance addresses + per-instance update log + WGL linearizability oracle (register) + race detector on the instances' plain fields",
                 level_text="Readers arriving between the writer's instance switch and its version toggle and back-to-back updates are produced by the scheduler; no read functor "
                            "may run on an instance while an update functor modifies it, both instances receive every update exactly once in the same order, reads are linearizable.",
